@@ -343,12 +343,36 @@ fn model(w: &World) -> Model {
         max_depth: 0,
         max_fanout: 0,
     };
-    fn visit(w: &World, m: &mut Model, node: usize, depth: usize, stack: &mut Vec<usize>) {
+    fn visit(w: &World, m: &mut Model, node: usize, depth: usize, stack: &mut Vec<usize>, missing_seen: &mut Vec<Vec<Vec<u8>>>) {
         if depth > 5 {
             return;
         }
         let mut fanout = 0;
         for l in &w.repos[node].lines {
+            if let Line::Missing { form, .. } = l {
+                // git complains and skips the entry every time; naming the same missing directory twice is no cycle
+                let sibling = |mut base: Vec<Vec<u8>>| {
+                    base.pop();
+                    base.push(b"no-such-sibling".to_vec());
+                    base.push(b"objects".to_vec());
+                    base
+                };
+                let key = match form {
+                    Form::Abs => vec![b"<the absolute missing directory>".to_vec()],
+                    Form::Rel => sibling(w.repos[node].objects_comps()),
+                };
+                if *form == Form::Rel && node != 0 {
+                    m.nested_relative = true;
+                    if sibling(w.repos[0].objects_comps()) != key {
+                        m.base_matters = true;
+                    }
+                }
+                if missing_seen.contains(&key) {
+                    m.has_duplicate = true;
+                } else {
+                    missing_seen.push(key);
+                }
+            }
             if let Line::Edge { target, form, .. } = l {
                 if *form == Form::Rel && node != 0 {
                     m.nested_relative = true;
@@ -381,14 +405,15 @@ fn model(w: &World) -> Model {
                 m.order.push(*target);
                 m.max_depth = m.max_depth.max(depth + 1);
                 stack.push(*target);
-                visit(w, m, *target, depth + 1, stack);
+                visit(w, m, *target, depth + 1, stack, missing_seen);
                 stack.pop();
             }
         }
         m.max_fanout = m.max_fanout.max(fanout);
     }
     let mut stack = vec![0];
-    visit(w, &mut m, 0, 0, &mut stack);
+    let mut missing_seen = Vec::new();
+    visit(w, &mut m, 0, 0, &mut stack, &mut missing_seen);
     m
 }
 
@@ -695,23 +720,22 @@ pub fn main() {
                 }
             }
         }
+        // An order-only difference is reported LAST so that object reachability is still judged in such worlds.
+        let mut order_failure: Option<String> = None;
         if gix_alts != git_alts {
             let mut a = gix_alts.clone();
             let mut b = git_alts.clone();
             a.sort();
             b.sort();
-            let sig = if a == b { "alternates-order" } else { base_sig("alternates-set") };
-            c.fail_sig(
-                sig,
-                format!(
-                    "resolve() = {list:?} (usable, canonical: {gix_alts:?}) but git consults {git_alts:?}; world: {}",
-                    render(&w)
-                ),
+            let msg = format!(
+                "resolve() = {list:?} (usable, canonical: {gix_alts:?}) but git consults {git_alts:?}; world: {}",
+                render(&w)
             );
-            // keep going: object reachability is judged independently of the order
             if a != b {
+                c.fail_sig(base_sig("alternates-set"), msg);
                 return;
             }
+            order_failure = Some(msg);
         }
         // object reachability through the store, both directions
         let handle = match gix_odb::at(objects[0].clone()) {
@@ -757,6 +781,9 @@ pub fn main() {
                     return;
                 }
             }
+        }
+        if let Some(msg) = order_failure {
+            c.fail_sig("alternates-order", msg);
         }
     });
 
